@@ -36,6 +36,9 @@ BAD = {
     "extra-attr-store": "hidden per-element state stored during stepping",
     "net-attr-store": "hidden state stored on the network during stepping",
     "memoised": "memoised function in the dynamics",
+    "var-not-fresh": "variables reused across initialisations",
+    "class-attr-store": "state stored on a class (shared by all instances) during stepping",
+    "engine-state-shared": "engine configuration shared between engine instances",
 }
 
 
@@ -59,6 +62,48 @@ def run(rep: Report) -> None:
                 break
         if not found:
             rep.holds("no-side-effects", lab, "Network.step")
+    # history independence: the same objects stepped before with other options / engine
+    # arguments give the same next states as a fresh step
+    from dataclasses import replace as _replace
+
+    from .. import expr as E
+    from .. import model as M
+
+    by = {ck.cfg: ck for ck in cks}
+    nh = 0
+    for ck in cks:
+        cfg = ck.cfg
+        if not cfg.history:
+            continue
+        base = by.get(_replace(cfg, history=()))
+        if base is None:
+            continue
+        nh += 1
+        ok, detail = True, ""
+        for p in ck.paths:
+            q = next((x for x in base.paths if x.path == p.path), None)
+            if q is None or p.raised or q.raised:
+                ok, detail = False, f"the step after earlier steps raises or branches differently ({p.raised})"
+                break
+            nz = M.make_normalizer(cfg, with_domain=False)
+            env = E.Env(p.n1)
+            for role, vs in q.outputs.items():
+                for var, t in vs.items():
+                    got = p.outputs.get(role, {}).get(var)
+                    if got is None or not E.is_term(got):
+                        ok, detail = False, f"no next {var} of {role}"
+                        continue
+                    try:
+                        mm = M.compare(got, t, env, nz)
+                    except E.ShapeError as ex:
+                        mm = [("shape", str(ex), "")]
+                    if mm:
+                        ok = False
+                        detail = (f"next {var} of {role} at {mm[0][0]} depends on what was stepped before: "
+                                  f"{mm[0][1][:250]} | fresh step = {mm[0][2][:250]}")
+        rep.check(ok, "history-independence", cfg.label(), "Network.step", detail,
+                  key=f"history|{cfg.u_origin}|{cfg.impl}|{detail[:40]}")
+    rep.floor("configurations with earlier steps", nh, 8)
     rep.analysed["configurations"] = len(cks)
     rep.floor("configurations", len(cks), 1000)
     n_user = sum(1 for ck in cks if ck.cfg.init == "user")
